@@ -16,18 +16,29 @@ RULE = ("valid streams from the real encoder (random meshes of every topology fa
         "identity-mapped size >= num_points, buffer >= size * stride, stride >= components * type length) and then read "
         "completely through face(), mapped_index(), GetValue(), GetAddress(), GetMappedValue(); for sequential streams the "
         "Lean model decodes the same bytes (status, consumed bytes, geometry must agree; model geometry re-checked with "
-        "Geometry.valid); distinct op lines")
-THEOREM_BACKED = ("decode_ok_valid: decodeGeometrySeq opts s = (some r, s') -> r.geometry.valid = true for every byte string and "
-                  "option set (sequential point cloud + mesh decoders of every bitstream version 1.1..2.3; decodeGeometrySeq = the "
-                  "complete decoder with the Edgebreaker / kd-tree bodies rejected); decode_seq_stream_ok_valid (the complete "
-                  "decodeGeometry on every stream whose header announces a sequential method); decode_ok_valid_with (the "
-                  "dispatcher with arbitrary body decoders that only return valid geometries); decode_all_ok_valid_partial "
-                  "(complete decoder: kd-tree body discharged by Kd.decodeKdGeometry_valid, Edgebreaker body validity is the "
-                  "remaining hypothesis); valid_accessors_in_bounds")
-CORRESPONDENCE_ONLY = ("Edgebreaker streams: no validity theorem about the Edgebreaker body of the model; validity is evaluated on "
-                       "the implementation's returned geometry (explicit test + sanitized accessor walk)")
-EXPLANATION = ("full proof on the model of the sequential decoders; the model is tied to the C++ by decoding the same "
-               "(valid and corrupted) streams; for the methods outside the model the property is tested on the real output")
+        "Geometry.valid); distinct op lines"
+        '; plus structure-aware corruption of every located field of small base streams, the tamper-hook campaign'
+        ' (the encoder re-run with exactly one semantic value replaced; every produced stream is an ordinary '
+        'case) and the regression streams of repaired findings')
+THEOREM_BACKED = ("DracoProps.C03: decode_ok_valid: decodeGeometrySeq opts s = (some r, s') -> r.geometry.valid = true for "
+                  'every byte string and option set (sequential point cloud + mesh decoders of every bitstream version '
+                  '1.1..2.3; decodeGeometrySeq = the complete decoder with the Edgebreaker / kd-tree bodies rejected); '
+                  'decode_seq_stream_ok_valid; decode_ok_valid_with (the dispatcher with arbitrary body decoders that only '
+                  'return valid geometries); decode_all_ok_valid_partial; valid_accessors_in_bounds; kd-tree body: '
+                  'Kd.decodeKdGeometry_valid (C01Kd.kdtree_decoded_geometry_valid). DracoProps.C03Eb: '
+                  'eb_decode_ok_atts_valid (every attribute of an accepted Edgebreaker stream is valid, every input and '
+                  'version), eb_decode_ok_valid (geometry valid whenever it has an attribute), eb_decode_ok_valid_of_faces '
+                  '(attribute-less mesh: face bound as hypothesis), decode_all_ok_valid / decode_all_ok_accessors (the '
+                  'COMPLETE decoder decodeGeometry, no hypothesis on the stream: every attribute valid; valid and every '
+                  'accessor read in bounds whenever there is an attribute)')
+CORRESPONDENCE_ONLY = ('face index < num_points for an Edgebreaker mesh with ZERO attribute decoders (never produced by the '
+                       'encoder, accepted by the decoder) is not proved — it is the hypothesis of eb_decode_ok_valid_of_faces; '
+                       "there, and for streams the model reports as unsupported, validity is evaluated on the implementation's "
+                       'returned geometry only (explicit test + sanitized accessor walk)')
+EXPLANATION = ('proof on the decoder model for every body decoder (sequential: full; kd-tree: full; Edgebreaker: every '
+               'attribute, and the faces whenever an attribute decoder ran its point-mapping check); the model is tied '
+               'to the C++ by decoding the same (valid and corrupted) streams; the property itself is tested on every '
+               'geometry the real decoder returns')
 TRUSTED_EXTRA = ["harness/ops_robust.cc validity(): the explicit structural test applied to the returned PointCloud / Mesh"]
 TIMEOUT = 3000
 ORACLES = [R.oracle_valid, R.oracle_status]
